@@ -217,6 +217,10 @@ def enc_features(prop, monitor, pfx):
           'RawMessage("01") is emitted', "internal/encoder compact (used to validate RawMessage/Marshaler output) is lenient (see KF-C18-01..04)", "other ill-formed RawMessage accepted", "see KF-C18-01")
     known(pfx + "-NONFIN", prop, monitor, E, r"ok-vs-err", r"ref-error:unsupported-value @ feature:val:nonfinite",
           'float32(NaN) -> NaN, +Inf', "internal/encoder/vm OpFloat32*: no IsNaN/IsInf check (OpFloat64* have it)", "other non-finite float32 emitted", "4 interpreters x many opcodes")
+known("KF-C01-OMITMAPPTR", "C01", "enc-diff", None, r"missing-member", r"field\[omitempty\]:ptr1>map\[str\] < .*",
+      'struct{X int; M *map[string]int `json:"m,omitempty"`} with M pointing to a nil map: go-json omits m, encoding/json writes "m":null (a non-nil pointer is not empty)',
+      "internal/encoder/vm*/vm.go OpStruct(Head|Field)OmitEmptyMapPtr: the emptiness test looks through the pointer at the map (8 opcode bodies in the four interpreters, generated code)",
+      "nothing else: the member must be a pointer to a map tagged omitempty and point to a nil map", "eight generated opcode bodies; rare shape; left as a finding")
 enc_features("C01", "enc-diff", "KF-C01")
 
 # ------------------------------------------------------------------ process deaths on the wild-read features (shared by the encode-side properties)
